@@ -182,7 +182,32 @@ def run(rep, tier, seed):
 
 def replay(case):
     if case.get('layer') == 'coap':
-        return 're-run ./check C08 (cases are regenerated from the seed)'
+        from microschc.protocol.coap import CoAPParser, CoAPOptionMode
+        from core import Buffer, bits_of, Driver
+        from schc_util import fid_of, tb
+        from schc_run import with_timeout
+        from p_c19 import parse_model_sem
+        import re as _re
+        sem = CoAPParser(interpret_options=CoAPOptionMode.SEMANTIC)
+        if case.get('op') == 'identifier':
+            pkt = bytes.fromhex(case['packet'])
+            o_ = impl_outcome(lambda: [str(getattr(f.id, 'value', f.id)) for f in sem.parse(Buffer(pkt, len(pkt) * 8)).fields])
+            if o_[0] != 'OK':
+                return 'raised %s' % o_[1]
+            oid = o_[1][-1]
+            if _re.search(r'unknown', oid, _re.I) and not _re.search(r'\(%d\)$' % case['number'], oid):
+                return 'option number %d is identified as %r' % (case['number'], oid)
+            return None
+        bits = case['bits']
+        pkt = int(bits, 2).to_bytes(len(bits) // 8, 'big') if bits else b''
+        buf = Buffer(pkt, len(bits))
+
+        def f1():
+            hd = sem.parse(buf)
+            return (tuple((fid_of(x.id), x.position, bits_of(x.value)) for x in hd.fields), hd.length)
+        o1 = with_timeout(f1)
+        m = parse_model_sem(Driver().run(['S parsesem %s' % tb(bits)])[0])
+        return None if m == o1 else 'model %s vs implementation %s' % (str(m)[:100], str(o1)[:100])
     out = pc.observe(case['stack'], case['bits'])
     from core import Driver
     m = pc.parse_model(Driver().run([pc.model_line(case['stack'], case['bits'])])[0])
